@@ -46,7 +46,7 @@ def mon01(scn, d):
     return None
 
 def run(chk):
-    r = standard_run(chk, PROFILE, 1500, 30000)
+    r = standard_run(chk, PROFILE, 4000, 40000)
     if r is None: return
     drv, impl, scns, ms, ds = r
     def proj(lines, n):
